@@ -105,6 +105,7 @@ pub struct ExploreStats {
     pub max_choice_points: usize,
     pub by_deviations: Vec<u64>,
     pub capped: bool,
+    pub replay_retries: u64,
 }
 
 /// Deviation-bounded exploration. `run(prefix)` executes once and returns the trace of choice
@@ -127,34 +128,48 @@ where
             stats.capped = true;
             break;
         }
-        let x = run(&prefix)?;
-        stats.executions += 1;
+        // A replayed prefix must reproduce its parent up to the deviation point. The executions are
+        // deterministic by construction; should an unowned source of nondeterminism ever slip in,
+        // one re-execution is attempted before the divergence is declared (a machinery error).
+        let mut attempt = 0;
+        let x = loop {
+            attempt += 1;
+            let x = run(&prefix)?;
+            stats.executions += 1;
+            let mut problem: Option<String> = None;
+            if let Some(d) = &x.diverged {
+                problem = Some(format!("replay divergence: {d} (prefix {prefix:?})"));
+            } else if x.trace.len() < prefix.len() {
+                problem = Some(format!(
+                    "replay divergence: execution ended after {} choice points but the prefix has {} (prefix {prefix:?})",
+                    x.trace.len(),
+                    prefix.len()
+                ));
+            } else if let Some(parent) = &parent {
+                let upto = prefix.len().saturating_sub(1);
+                for j in 0..=upto.min(parent.len().saturating_sub(1)) {
+                    let (a, b) = (&parent[j], &x.trace[j]);
+                    if a.tag != b.tag || a.menu != b.menu || a.obs_hash != b.obs_hash {
+                        problem = Some(format!(
+                            "replay divergence at choice point {j}: parent ({}, menu {}, obs {:x}) vs child ({}, menu {}, obs {:x}); prefix {prefix:?}",
+                            a.tag, a.menu, a.obs_hash, b.tag, b.menu, b.obs_hash
+                        ));
+                        break;
+                    }
+                }
+            }
+            match problem {
+                None => break x,
+                Some(p) if attempt >= 3 => return Err(p),
+                Some(_) => {
+                    stats.replay_retries += 1;
+                    continue;
+                }
+            }
+        };
         let devs = prefix.iter().filter(|c| **c != 0).count();
         stats.by_deviations[devs.min(bound)] += 1;
         stats.max_choice_points = stats.max_choice_points.max(x.trace.len());
-        if let Some(d) = x.diverged {
-            return Err(format!("replay divergence: {d} (prefix {prefix:?})"));
-        }
-        if x.trace.len() < prefix.len() {
-            return Err(format!(
-                "replay divergence: execution ended after {} choice points but the prefix has {} (prefix {prefix:?})",
-                x.trace.len(),
-                prefix.len()
-            ));
-        }
-        if let Some(parent) = &parent {
-            // Everything up to and including the deviation point must look as it did in the parent.
-            let upto = prefix.len().saturating_sub(1);
-            for j in 0..=upto.min(parent.len().saturating_sub(1)) {
-                let (a, b) = (&parent[j], &x.trace[j]);
-                if a.tag != b.tag || a.menu != b.menu || a.obs_hash != b.obs_hash {
-                    return Err(format!(
-                        "replay divergence at choice point {j}: parent ({}, menu {}, obs {:x}) vs child ({}, menu {}, obs {:x}); prefix {prefix:?}",
-                        a.tag, a.menu, a.obs_hash, b.tag, b.menu, b.obs_hash
-                    ));
-                }
-            }
-        }
         if devs >= bound {
             continue;
         }
